@@ -156,6 +156,21 @@ def run(model, rep, tier):
                           f"committed B-tree version does not freeze self.{fld}", stmt=f"freeze-{fld}")
         guard = [n for n in cfg.nodes if n.kind == "test" and "isinstance(version, WritableVersion)" in src(n.ast.test)]
         rep.check(bool(guard), "R-11.2", f.qualname, where(f, f.node), "accepts only a WritableVersion", "type guard on the source version is gone", stmt="source-guard")
+    # freeze completeness: ImmutableVersion only wraps names recorded in `changed`, so every fresh (mutable) node a
+    # writable version creates must be recorded there on every path
+    n_fresh = 0
+    for cq in ("dns.zone.WritableVersion", "dns.btreezone.WritableVersion"):
+        ci = model.cls(cq)
+        for mname, f in sorted(ci.methods.items()):
+            cfgf = CFG(f.node, implicit_exc=False)
+            fresh = [n for n in cfgf.nodes if isinstance(n.ast, ast.Assign) and isinstance(n.ast.value, ast.Call) and src(n.ast.value.func).endswith("node_factory")]
+            adds = [n.id for (n, c) in calls_with_nodes(cfgf) if src(c.func) == "self.changed.add"]
+            for fr in fresh:
+                n_fresh += 1
+                rep.check(bool(adds) and cfgf.postdominated_by_set(fr.id, adds), "R-11.2", f.qualname, where(f, fr.ast),
+                          "a freshly created node is always recorded in `changed` (so commit freezes it)",
+                          "a fresh mutable node is stored without recording its name in `changed`: the committed snapshot keeps a mutable node", stmt="fresh-node-recorded")
+    rep.floor("R-11.2-fresh", n_fresh, 2)
     # versioned zone: every published version is immutable
     vz = model.cls("dns.versioned.Zone")
     n_pub = 0
@@ -355,4 +370,6 @@ WITNESSES = [
      "old": "        if create:\n            raise UseTransaction\n        return super().find_node(name)", "new": "        return super().find_node(name, create)"},
     {"id": "c11-prune-le", "rule": "R-11.4", "file": "dns/versioned.py", "expect": "fires",
      "old": "while self._versions[0].id < least_kept and self._pruning_policy(", "new": "while self._versions[0].id <= least_kept and self._pruning_policy("},
+    {"id": "c11-glue-cow-not-recorded", "rule": "R-11.2", "file": "dns/btreezone.py", "expect": "fires",
+     "old": "                new_node.rdatasets.extend(node.rdatasets)\n                self.changed.add(ename)\n", "new": "                new_node.rdatasets.extend(node.rdatasets)\n"},
 ]
